@@ -401,6 +401,12 @@ func genHybridQuery(rng *rand.Rand, h *hybridModel, vg *vecGen, tg *textGen) hyb
 	if rng.IntN(2) == 0 {
 		q.WV, q.WT = rng.Float64()*2, rng.Float64()*2
 	}
+	switch rng.IntN(12) {
+	case 0: // a weight of exactly 0 switches a modality's contribution off, nothing else: the other side keeps its weight
+		q.WV, q.WT = 0, []float64{2, 3, 0.5, 1}[rng.IntN(4)]
+	case 1:
+		q.WV, q.WT = []float64{2, 3, 0.5, 1}[rng.IntN(4)], 0
+	}
 	q.RRFK = []float64{1, 60, 60, 10000, 0.5, 2.5}[rng.IntN(6)]
 	switch rng.IntN(6) {
 	case 0: // by kind: the library's default configuration (weights 1/1, K = 60)
